@@ -42,3 +42,13 @@ void h_model_string_ctor_copy(void)
   vf_string_ctor_copy(s, o);
   VF_CANARY();
 }
+
+void h_model_string_ctor_cstr(void)
+{
+  vf_string *s = (vf_string *)vf_alloc(sizeof(*s));
+  __CPROVER_assume(vf_gn <= VF_MAXSTR);
+  char *c = (char *)vf_alloc(vf_gn + 1);
+  c[vf_gn] = 0;
+  vf_string_ctor_cstr(s, c);
+  VF_CANARY();
+}
